@@ -177,6 +177,13 @@ def run(ctx: core.Run):
 
     jobs = []       # (label, scenario, bytes, doc-or-None, expected-signature-or-None)
 
+    # ------------------------------------------------------------------ corpus of past failures / witnesses
+    corpus_file = core.VERIF / "harness" / "corpus" / "C03.json"
+    if corpus_file.exists():
+        import json
+        for k, e in enumerate(json.loads(corpus_file.read_text())):
+            jobs.append(("corpus#%d:%s" % (k, e.get("note", "")), "corpus", unhx(e["file"]), e.get("expect"), False))
+
     # ------------------------------------------------------------------ generated structures
     fx_all = cc.fixtures()
     fx_small = [f for f in fx_all if f.stat().st_size <= 60000]
@@ -245,7 +252,7 @@ def run(ctx: core.Run):
                     one_more = (pr[0] == "rle-row-table-sum" and isinstance(pr[1], dict)
                                 and pr[1].get("planes_that_fit") == hdr[1] + 1) or \
                                (pr[0] in ("raw-size", "zip-size") and pr[1] == (hdr[1] + 1) * plane)
-                    if one_more and scen.startswith("api/edit-then-save") and hdr[5] == 3:
+                    if one_more and scen.startswith("api/edit-then-save"):
                         sig = "C03/merged-image/plane-count-mismatch-after-edit"
                     else:
                         sig = f"C03/pixels/{pr[0]}/{scen.split('/')[0]}"
